@@ -5,6 +5,7 @@ import (
 	"math/rand"
 	"sort"
 	"strconv"
+	"sync"
 
 	"verif/der"
 	"verif/gen"
@@ -16,13 +17,34 @@ import (
 
 type dirFam struct {
 	name string
+	rank int // position in the enumeration: 0 positional, 1 DN-text (the two big ones), then the small families that are always run completely
 	n    func(c *mon.Ctx) int
 	gen  func(c *mon.Ctx, k int) (*mon.Obj, string)
 }
 
 var dirFams []dirFam
 
+var famSort sync.Once
+
+func sortFams() {
+	famSort.Do(func() { sort.SliceStable(dirFams, func(i, j int) bool { return dirFams[i].rank < dirFams[j].rank }) })
+}
+
+// directedSmallTail is the number of cases at the END of the enumeration that belong to the small families
+// (rank >= 2): checks that only sample the big families still run these completely.
+func directedSmallTail(c *mon.Ctx) int {
+	sortFams()
+	t := 0
+	for _, f := range dirFams {
+		if f.rank >= 2 {
+			t += f.n(c)
+		}
+	}
+	return t
+}
+
 func directedCount(c *mon.Ctx) int {
+	sortFams()
 	t := 0
 	for _, f := range dirFams {
 		t += f.n(c)
@@ -31,6 +53,7 @@ func directedCount(c *mon.Ctx) int {
 }
 
 func directedCase(c *mon.Ctx, k int) (*mon.Obj, string) {
+	sortFams()
 	for _, f := range dirFams {
 		n := f.n(c)
 		if k < n {
@@ -225,7 +248,7 @@ func splitOps() {
 
 func init() {
 	dirFams = append(dirFams, dirFam{
-		name: "positional",
+		name: "positional", rank: 0,
 		n: func(c *mon.Ctx) int {
 			buildPositions()
 			splitOps()
@@ -314,7 +337,7 @@ func splitLabels(s string) []string {
 
 func init() {
 	dirFams = append(dirFams, dirFam{
-		name: "san-siblings",
+		name: "san-siblings", rank: 2,
 		n: func(c *mon.Ctx) int {
 			buildSanSeeds()
 			return len(sanSeeds) * 2
@@ -454,8 +477,8 @@ func genPoolCase(k int) (*mon.Obj, string) {
 
 func init() {
 	dirFams = append(dirFams, dirFam{
-		name: "gen-pool",
-		n:    func(c *mon.Ctx) int { return genPoolSize() },
-		gen:  func(c *mon.Ctx, k int) (*mon.Obj, string) { return genPoolCase(k) },
+		name: "gen-pool", rank: 3,
+		n:   func(c *mon.Ctx) int { return genPoolSize() },
+		gen: func(c *mon.Ctx, k int) (*mon.Obj, string) { return genPoolCase(k) },
 	})
 }
